@@ -90,14 +90,14 @@ class Contract:
         self.notes: list[str] = []
         self.crosscheck_spec: Optional[dict] = None
         self.pools: dict[str, list] = {}  # cross-check sample pools per input name
-        self.int_str_limit = False  # model CPython's int -> str digit limit (ValueError) in str()/repr()/f-strings
+        self.int_str_limit = cdef.prop == 'C02'  # model CPython's int -> str digit limit (ValueError) in str()/repr()/f-strings
 
     def model_int_str_limit(self):
         """str(n) / repr(n) / f'{n}' of an int of more than sys.get_int_max_str_digits() digits raises
-        ValueError.  The limit is a symbolic constant INT_STR_LIMIT >= 10**18 (CPython: 10**4300), so a
+        ValueError.  The limit is a symbolic constant INT_STR_LIMIT >= 2**64 (CPython: 10**4300), so a
         proof holds for the real limit; lengths and positions are bounded by sys.maxsize < INT_STR_LIMIT."""
         self.int_str_limit = True
-        self.assumptions.append("int -> str conversion raises ValueError for |n| >= INT_STR_LIMIT (symbolic, >= 10**18; CPython: 10**4300)")
+        self.assumptions.append("int -> str conversion raises ValueError for |n| >= INT_STR_LIMIT (symbolic, >= 2**64; CPython: 10**4300)")
 
     # ---- symbolic inputs
     def int(self, name):
